@@ -4,13 +4,13 @@ set -u
 patch=$1; budget=$2; shift 2
 cd /repo || exit 2
 if [ -n "$(git status --porcelain)" ]; then echo "/repo not clean"; exit 2; fi
-if ! git apply --3way "$patch" 2>/tmp/apply.err; then echo "PATCH DOES NOT APPLY"; cat /tmp/apply.err; git checkout -- . ; exit 2; fi
+if ! git apply --3way "$patch" 2>/tmp/apply.err; then echo "PATCH DOES NOT APPLY"; cat /tmp/apply.err; git reset -q --hard HEAD; exit 2; fi
 git reset -q
 export GOFLAGS=-mod=mod GOPROXY=off GOSUMDB=off GOTOOLCHAIN=local
-go build ./... || { echo "BUILD FAILS"; git checkout -- .; exit 2; }
+go build ./... || { echo "BUILD FAILS"; git reset -q --hard HEAD; exit 2; }
 cd /verif
 for c in "$@"; do
   VERIF_BUDGET_S=$budget ./run.sh $c ${TIER:-quick} 2>&1 | grep -E "VIOLATION|SUMMARY|HARNESS" | cut -c1-260
 done
-git -C /repo checkout -- .
+git -C /repo reset -q --hard HEAD
 git -C /repo status --porcelain
